@@ -24,8 +24,25 @@ def observe(vec):
     from cutplace import errors, rowio
     text = text_of(vec["input"])
     fields = [("f%d" % i, width) for i, width in enumerate(vec["widths"], 1)]
+    def reader():
+        return rowio.fixed_rows(io.StringIO(text, newline=""), "utf-8", fields, DELIM[vec["delim"]])
+
     try:
-        rows = list(rowio.fixed_rows(io.StringIO(text, newline=""), "utf-8", fields, DELIM[vec["delim"]]))
+        rows = list(reader())
+        # every call is its own copy of the machine (the pushed-back character and the position belong to the call):
+        # a reader abandoned after its first row, and a second reader advanced in lockstep, leave this one alone
+        if len(rows) >= 2:
+            abandoned = reader()
+            next(abandoned)
+            first, second = reader(), reader()
+            lockstep = []
+            for row in first:
+                lockstep.append(row)
+                next(second, None)
+            if lockstep != rows:
+                return {"status": "ok", "rows": lockstep, "note": "read after another reader was abandoned following its "
+                                                                  "first row, and in lockstep with a second reader"}
+            del abandoned
         return {"status": "ok", "rows": rows}
     except errors.DataFormatError as error:
         return {"status": "err", "error": str(error)}
@@ -47,7 +64,8 @@ def problems_of(vec, observed):
     if observed["status"] == "err":
         return ["%s: well-formed input refused: %s" % (what, observed["error"])]
     if observed["rows"] != want:
-        return ["%s: returns %s but the input holds %s" % (what, observed["rows"], want)]
+        return ["%s%s: returns %s but the input holds %s" % (what, " (%s)" % observed["note"] if "note" in observed else "",
+                                                             observed["rows"], want)]
     return []
 
 
